@@ -141,6 +141,28 @@ class PyRuleSeq:
         self.ids = ids
 
 
+class PyOpt:
+    """Optional[T] local whose None-ness differs between the paths that reach a loop head: a flag plus the value it has
+    when not None (declared `optv[T]` in a loop's `types`)"""
+
+    def __init__(self, isnone, some):
+        self.isnone = isnone    # z3 Bool
+        self.some = some
+
+    def __repr__(self):
+        return f"Opt({self.isnone}, {self.some!r})"
+
+
+class PyStrDict:
+    """a constant dict[str, str] read from the real `__init__` (e.g. Tokenizer._end_parens): only `.get` / `in` are used"""
+
+    def __init__(self, items: dict):
+        self.items = dict(items)
+
+    def __repr__(self):
+        return f"StrDict({self.items})"
+
+
 class PyConst:
     """an opaque Python constant (class object, module, exception class ...)"""
 
@@ -236,4 +258,6 @@ def clone(v, memo):
         return n
     if isinstance(v, PyCallable) and v.bound is not None:
         return PyCallable(v.kind, v.name, v.ident, clone(v.bound, memo), v.strict)
+    if isinstance(v, PyOpt):
+        return PyOpt(v.isnone, clone(v.some, memo))
     return v
